@@ -376,6 +376,13 @@ func (c06) Exec(sci interface{}, env *Env) *Violation {
 					env.Class("stop/odd-or-empty-vector")
 					return nil
 				}
+				// the pushed word lands on the table entry itself: "pushes PC and jumps to the word stored at
+				// I*256+vector" does not say which contents count then (read first or pushed first)
+				t := uint16(before.IR.Hi)<<8 | uint16(req.Data[0])
+				if a, b := before.SP-1, before.SP-2; a == t || a == t+1 || b == t || b == t+1 {
+					env.Class("stop/sp-on-im2-table")
+					return nil
+				}
 			}
 			if before.IM == 0 && len(req.Data) == 0 {
 				env.Class("stop/empty-im0")
